@@ -17,7 +17,7 @@ import FluteModel.ToiWire
     fdt                                          -> fdt <sorted tois…> | fdt -
     wire <toi> <tsi>   (stateless: header builder + parser on any u128)   -> wire <toi read back> <O> <H> <field hex>
     churn <n>          (n times: allocate a handle, drop it)              -> ok <last value>
-    allocn <n>         (n handles h=1000000+i, all kept)                  -> ok <first> <last> | HANG <count>
+    allocn <n>         (n handles h=1000000+i, all kept)                  -> ok <first> <last> | HANG
 -/
 namespace Flute.Drv.Toi
 open Flute Flute.Toi
@@ -84,7 +84,7 @@ def allocN (s : Sys) : (n i first last : Nat) → Sys × String
     match s.step (.alloc (1000000 + i)) with
     | .ok (s', .toi v, _) => allocN s' n (i + 1) (if i = 0 then v else first) v
     | .ok (s', _, _) => (s', "bad-op")
-    | .hang => (s, s!"HANG {i}")
+    | .hang => (s, "HANG")
     | .panic _ => (s, "PANIC")
 
 /-- `churn n`: n times allocate a handle and drop it at once -/
